@@ -105,8 +105,10 @@ def derive(gen, max_stack, max_out, per_context=0, rev=False):
 
 def corpus(gen, max_stack, max_out, per_context=0):
     """Sentences of both derivation orders (first-to-last and last-to-first alternatives), distinct by kinds."""
-    a, na, ra = derive(gen, max_stack, max_out, per_context, rev=False)
-    b, nb, rb = derive(gen, max_stack, max_out, per_context, rev=True)
+    with cf.ThreadPoolExecutor(max_workers=2) as ex:  # two independent TLC runs
+        fa = ex.submit(derive, gen, max_stack, max_out, per_context, False)
+        fb = ex.submit(derive, gen, max_stack, max_out, per_context, True)
+        (a, na, ra), (b, nb, rb) = fa.result(), fb.result()
     seen, sents = set(), []
     for e in a + b:
         k = tuple(t["k"] for t in e["s"])
@@ -202,14 +204,15 @@ def check_c17(v, d):
     for which, msg in zip(("plain", "semantic"), g.get("new_parser", [])):
         if msg:
             v.reject("grammar-refused-by-NewParser", {"grammar": which, "error": msg}, {"grammar": which, "error": msg})
-    fails, tstats, tr = table_check(gen)
+    with cf.ThreadPoolExecutor(max_workers=2) as ex:  # table facts and sentence generation are independent
+        ft = ex.submit(table_check, gen)
+        fc = ex.submit(corpus, gen, *((20, 40, 1) if tier == "quick" else (26, 60, 0)))
+        (fails, tstats, tr), (sents, dinfo) = ft.result(), fc.result()
     for f in fails:
         alts = g["plain"].get(f["rule"], [])
         w = dict(f)
         w["alternatives"] = [" ".join(e["v"] for e in a) for a in alts]
         v.reject("table:" + f["fact"], w, {"table_fact": f, "rule": f["rule"], "alternatives": alts})
-    ms, mo = (20, 40) if tier == "quick" else (26, 60)
-    sents, dinfo = corpus(gen, ms, mo, per_context=1 if tier == "quick" else 0)
     sp = os.path.join(d, "sentences.ndjson")
     write_ndjson(sp, sents)
     trace, st = run_driver("parsedrv", ["witness", "-in", sp], d, "witness")
